@@ -259,7 +259,7 @@ class C04(FrpProp):
 class C05(FrpProp):
     pid = "C05"
     extra_props = ["Refine", "K1"]
-    level_text = "Theorems over the specification: switch_s follows the stream the outer cell held at the START of the transaction (effective next transaction, back and forth, same stream); switch_c's update in a switching transaction is the new inner's update or current value, otherwise the current inner's update; invariant: the switch_c cell always equals the cell currently held by the outer cell, preserved by every close over any history. Refine_*: switch_s is inside the proved engine fragment (its dependency is the stream held at the start of the transaction, re-wired at commit) under the hypothesis that the graph stays acyclic; K1_engine_differs_from_spec proves that for the cyclic-outer-cell class engine and specification disagree. switch_c is inside the fragment too: the engine model has dynamic demands (a node may, from inside its update, bring another node up to date as a dependency - what switch_c's nested update_node2 does), tied exactly to the real engine at the raw level (C03 scripts with demanding nodes). Known finding K1 (cyclic outer cell) is reported, not suppressed for other shapes."
+    level_text = "Theorems over the specification: switch_s follows the stream the outer cell held at the START of the transaction (effective next transaction, back and forth, same stream); switch_c's update in a switching transaction is the new inner's update or current value, otherwise the current inner's update; invariant: the switch_c cell always equals the cell currently held by the outer cell, preserved by every close over any history. Refine_*: switch_s is inside the proved engine fragment (its only dependency is the stream held at the start of the transaction, re-wired at commit); Props/K1.v: the program of the former known finding K1 (outer cell updated from the switch's own output; repaired in /repo) is acyclic and engine and specification agree on it. switch_c is inside the fragment too: the engine model has dynamic demands (a node may, from inside its update, bring another node up to date as a dependency - what switch_c's nested update_node2 does), tied exactly to the real engine at the raw level (C03 scripts with demanding nodes)."
     tag = "c05"
     profile = Profile(w=W(switch_s=10, switch_c=10, hold=8, map_c=6, defer=3, split=2, sloop=1, cloop=1), n_defs=(5, 14),
                       n_txn=(5, 16), p_block=0.7, p_sample=0.5, p_post=0.1, p_def_in_txn=0.1)
@@ -466,8 +466,9 @@ class C07(FrpProp):
                 if n is not None and n != "0":
                     return "line %d: %s node(s) still alive after every handle was dropped, every listener unlistened and a collection ran" % (k + 1, n)
         return None
-    profile = Profile(w=W(sloop=4, cloop=4, switch_s=4, switch_c=4, accum=6, collect=5, defer=2, router=2), p_mem=0.3,
+    profile = Profile(w=W(sloop=4, cloop=4, switch_s=4, switch_c=4, accum=6, collect=5, defer=2, router=2), p_mem=0.6,
                       n_txn=(0, 8), final_teardown=True)
+    counts = (6000, 60000)
 
 
 class C09(FrpProp):
